@@ -108,11 +108,27 @@ def parse_texts(ctx):
         sp = list(pr.all_strings(4, sep=" "))
         texts += sp
         stats["exhaustive_spaced"] = len(sp)
+    # longer strings over a small core alphabet (operator interplay needs 6-8 tokens: `2x^2^2`,
+    # `-x^2^2`, `y^x^2^2`, `2^-x!`, `(x)^2^3`): ALL strings of 6-7 (quick) / 6-8 (thorough) tokens over
+    # {2, x, ^, -, (, )} minus those starting with a closing parenthesis
+    core6 = ["2", "x", "^", "-", "(", ")"]
+    longer = ["".join(c) for k in ((6, 7) if quick else (6, 7, 8)) for c in itertools.product(core6, repeat=k) if c[0] != ")"]
+    longer += ["".join(c) for c in itertools.product(["2", "x", "y", "^", "!", "*"], repeat=6)]
+    texts += longer
+    stats["exhaustive_core_alphabet_6_to_8_tokens"] = len(longer)
     g = [grammar_text(rng, rng.choice([1, 2, 2, 3])) for _ in range(4000 if quick else 150000)]
     m = [malformed_text(rng) for _ in range(4000 if quick else 150000)]
     stats["grammar_directed"] = len(g)
     stats["malformed"] = len(m)
-    extra = gen.PATTERN_TEXTS + gen.rule_test_texts()
+    # every character (code points below 0x3100 quick / 0x10000 thorough, plus a few beyond) inside
+    # otherwise valid input: alone, in the middle, and at the end after padding.  Unicode has many
+    # characters that Python's str methods treat like blanks / digits / letters; each is unsupported
+    # and must be rejected at once with the documented ValueError.
+    cps = list(range(0, 0x3100 if quick else 0x10000)) + [0x3000, 0xFEFF, 0xFF10, 0xFF21, 0xFF41, 0x1D7CE, 0x1F600, 0x10FFFF]
+    cps = [c for c in dict.fromkeys(cps) if not (0xD800 <= c <= 0xDFFF)]
+    chars = [c_.format(chr(cp)) for cp in cps for c_ in ("{}", "4x + {}2", "x {}")]
+    stats["characters_in_context"] = len(chars)
+    extra = gen.PATTERN_TEXTS + gen.rule_test_texts() + chars
     texts = list(dict.fromkeys(texts + g + m + extra))
     stats["distinct"] = len(texts)
     return texts, stats
@@ -130,8 +146,15 @@ def run_parse_family(ctx):
         chunk = texts[off: off + CH]
         res = pr.run_parse(chunk)
         ans = drv.ask([f"parse {pr.text_wire(t)}" for t in chunk])
-        for (t, r, o), a in zip(res, ans):
+        # the TRANSLATED source (Gen/PySrcTokSt + Gen/PySrcParse, regenerated from the live tokenizer.py /
+        # parser.py) executed on the same text: validates the translators against the real code
+        ans_src = drv.ask([f"srcparse {pr.text_wire(t)}" for t in chunk])
+        for (t, r, o), a, a2 in zip(res, ans, ans_src):
             m = pr.model_parse_answer(a)
+            m2 = pr.model_parse_answer(a2)
+            if not pr.same_parse(r, m2):
+                diffs.append({"text": t, "impl": r if r[0] != "ok" else core.tuple_str(r[1]),
+                              "translated_source": m2 if m2[0] != "ok" else core.tuple_str(m2[1])})
             k = r[1] if r[0] == "perr" else r[0]
             kinds[k] = kinds.get(k, 0) + 1
             if r[0] == "ok" and r[1][0] in "UB":
@@ -580,7 +603,11 @@ def c11(ctx):
             n_seq += 1
             for k, t in enumerate(sq):
                 try:
-                    r = ("toks", [(pr.TT_NAMES.get(x.type, str(x.type)), x.value) for x in tk.tokenize(t)])
+                    with pr.time_limit(pr._limit_for(t)):
+                        r = ("toks", [(pr.TT_NAMES.get(x.type, str(x.type)), x.value) for x in tk.tokenize(t)])
+                except pr._TimeUp:
+                    pr._TIMEOUTS[0] += 1
+                    r = ("internal", "Timeout")
                 except ValueError as e:
                     r = pr.classify_value_error(e)
                 except Exception as e:  # noqa
@@ -615,8 +642,12 @@ def run_history(ops):
     for op in ops:
         if op[0] == "p":
             try:
-                tree = parser.parse(op[1])
+                with pr.time_limit(pr._limit_for(op[1])):
+                    tree = parser.parse(op[1])
                 out.append(("ok", core.to_tuple(tree)))
+            except pr._TimeUp:
+                pr._TIMEOUTS[0] += 1
+                out.append(("internal", "Timeout"))
             except P.ParserException as e:
                 out.append(("perr", type(e).__name__))
             except ValueError as e:
@@ -625,9 +656,13 @@ def run_history(ops):
                 out.append(("internal", type(e).__name__))
         elif op[0] == "t":
             try:
-                toks = parser.tokenize(op[1])
+                with pr.time_limit(pr._limit_for(op[1])):
+                    toks = parser.tokenize(op[1])
                 handed.append(toks)
                 out.append(("toks", [(pr.TT_NAMES.get(t.type, str(t.type)), t.value) for t in toks]))
+            except pr._TimeUp:
+                pr._TIMEOUTS[0] += 1
+                out.append(("internal", "Timeout"))
             except ValueError as e:
                 out.append(pr.classify_value_error(e))
             except Exception as e:  # noqa
@@ -856,7 +891,11 @@ def c10(ctx):
     audit = []
     for t in texts[:: 50 if quick else 10]:
         try:
-            tree = P.ExpressionParser().parse(t)
+            with pr.time_limit(pr._limit_for(t)):
+                tree = P.ExpressionParser().parse(t)
+        except pr._TimeUp:
+            pr._TIMEOUTS[0] += 1
+            continue
         except Exception:
             continue
         probs = core.audit_links(tree)
